@@ -603,26 +603,36 @@ func run(c *lib.Ctx) error {
 		now int64
 	}
 	var jobs []job
+	pairs := lib.NewPairCover()
 	for _, a := range assets {
 		ref := a.Ref()
 		N := int64(len(ref.Segs))
 		segMS := a.LoopMS / N
 		for k := 0; k < nCfg; k++ {
-			cfg := lib.TLCfg{StartS: starts[h.rng.Intn(len(starts))], Snr: snrs[h.rng.Intn(len(snrs))], Tsbd: tsbds[h.rng.Intn(len(tsbds))], Mode: modes[h.rng.Intn(3)], Extra: extras[h.rng.Intn(len(extras))]}
-			switch h.rng.Intn(7) {
-			case 0:
-				if cfg.Mode == "number" {
-					cfg.AtoMS = -1
+			// six random candidates; the one covering the most new pairs of option values is taken
+			var cands []lib.TLCfg
+			for q := 0; q < 6; q++ {
+				cand := lib.TLCfg{StartS: starts[h.rng.Intn(len(starts))], Snr: snrs[h.rng.Intn(len(snrs))], Tsbd: tsbds[h.rng.Intn(len(tsbds))], Mode: modes[h.rng.Intn(3)], Extra: extras[h.rng.Intn(len(extras))]}
+				switch h.rng.Intn(7) {
+				case 0:
+					if cand.Mode == "number" {
+						cand.AtoMS = -1
+					}
+				case 1:
+					cand.AtoMS = segMS / 4
+				case 2:
+					cand.AtoMS = segMS / 2
+				case 3:
+					cand.AtoMS = 1 + h.rng.Int63n(segMS-1)
+				case 4:
+					cand.AtoMS = segMS + segMS/4 // longer than a segment: reaches into the next loop at a wrap
 				}
-			case 1:
-				cfg.AtoMS = segMS / 4
-			case 2:
-				cfg.AtoMS = segMS / 2
-			case 3:
-				cfg.AtoMS = 1 + h.rng.Int63n(segMS-1)
-			case 4:
-				cfg.AtoMS = segMS + segMS/4 // longer than a segment: reaches into the next loop at a wrap
+				if cand.AtoMS > 0 {
+					cand.Extra = "" // see below
+				}
+				cands = append(cands, cand)
 			}
+			cfg := pairs.Pick("mpd", segMS, cands)
 			if k < 3 {
 				cfg = lib.TLCfg{Snr: -1, Tsbd: -1, Mode: modes[k]}
 			}
@@ -701,6 +711,7 @@ func run(c *lib.Ctx) error {
 	c.Res.Evaluations = h.nMPD + h.nSeg
 	c.Res.ModelCases = len(h.terms)
 	c.Res.DistinctNontrivial = len(h.distinct)
+	c.Res.Notes = append(c.Res.Notes, pairs.Summary())
 	c.Res.Rule = fmt.Sprintf("%d MPDs (bundled assets x sampled product of {Number, Timeline-Time, Timeline-Number} x start {0,30,1.6e9} x tsbd {default,0,1,10,60,61,172800} x startNumber {unset,0,1,7} x availabilityTimeOffset {0, 1/4, 1/2, random fraction of a segment, inf} x generated subtitles; instants: stream start, segment ends +-1 ms over 2+ loop periods and far from the epoch, window-edge coincidences) and %d segment requests derived from them (first/last/random listed segments of every adaptation set incl. audio, text, thumbnails, generated subtitles, plus the one after the live edge); distinct = distinct listed segment URLs served exactly as declared", h.nMPD, h.nSeg)
 	for k, v := range c.Res.Inputs {
 		if len(c.Res.Samples) >= 3 {
@@ -710,14 +721,19 @@ func run(c *lib.Ctx) error {
 			c.Sample(v)
 		}
 	}
-	shard := 300
-	for s := 0; s*shard < len(h.terms); s++ {
-		e := (s + 1) * shard
-		if e > len(h.terms) {
-			e = len(h.terms)
+	// cases with a 48 h window carry long timelines: the cases are dealt out round-robin over small
+	// shards, which are evaluated in parallel
+	nShards := (len(h.terms) + 39) / 40
+	if nShards > 16 {
+		nShards = 16
+	}
+	for s := 0; s < nShards; s++ {
+		var part []string
+		for i := s; i < len(h.terms); i += nShards {
+			part = append(part, h.terms[i])
 		}
 		c.WriteCases(fmt.Sprintf("cases_C02_%d.v", s),
-			lib.CasesFile("From Verif Require Import GoSem Timeline CorrC02.", "c02case", h.defs.String(), h.terms[s*shard:e], "model_view"))
+			lib.CasesFile("From Verif Require Import GoSem Timeline CorrC02.", "c02case", h.defs.String(), part, "model_view"))
 	}
 	return nil
 }
